@@ -3,6 +3,7 @@
 from __future__ import annotations
 
 # Standard Library Imports
+import os
 from dataclasses import dataclass
 from typing import TYPE_CHECKING
 
@@ -65,6 +66,17 @@ def asyncExecuteTasking(submission: TaskExecutionSubmission) -> dict:
         Results of task execution.
     """
     estimate_agent = ray.get(submission.estimate_handle)
+
+    if os.environ.get("RESONAATE_VERIF"):
+        # [verification hook] Measurement noise is drawn from the worker process' global numpy generator. With the
+        #   guard set, seed it from the job (target and time) so that a step's noise does not depend on which worker
+        #   process runs the job or on the order in which jobs are executed.
+        # Third Party Imports
+        from numpy import random as _np_random
+
+        _np_random.seed(
+            (int(estimate_agent.simulation_id) * 1000003 + int(round(float(estimate_agent.time) * 1000))) % (2**32),
+        )
 
     primary_tgt_handle = submission.target_handles[estimate_agent.simulation_id]
     del submission.target_handles[estimate_agent.simulation_id]
